@@ -14,10 +14,12 @@ impl Rng {
     pub fn coin(&mut self) -> bool { self.next() & 1 == 1 }
     pub fn pick<T: Copy>(&mut self, xs: &[T]) -> T { xs[self.below(xs.len() as u64) as usize] }
     pub fn chance(&mut self, num: u64, den: u64) -> bool { self.below(den) < num }
+    // values whose bytes look like variant tags (0..=6): provoke confusion between layouts
+    pub fn tagish(&mut self, nbytes: u32) -> u64 { let mut v = 0u64; for _ in 0..nbytes { v = (v << 8) | self.below(7); } v }
     // boundary-biased values
-    pub fn u8b(&mut self) -> u64 { match self.below(8) { 0 => 0, 1 => 1, 2 => 0xff, 3 => 0xfe, 4 => 0x80, _ => self.below(256) } }
-    pub fn u16b(&mut self) -> u64 { match self.below(10) { 0 => 0, 1 => 1, 2 => 0xffff, 3 => 0xfffe, 4 => 0x00ff, 5 => 0xff00, 6 => 0x0100, _ => self.below(65536) } }
-    pub fn u32b(&mut self) -> u64 { match self.below(10) { 0 => 0, 1 => 1, 2 => 0xffff_ffff, 3 => 0x0000_ffff, 4 => 0xffff_0000, 5 => 0x0100_0000, 6 => 0x00ff_00ff, _ => self.next() & 0xffff_ffff } }
+    pub fn u8b(&mut self) -> u64 { match self.below(9) { 8 => self.tagish(1), 0 => 0, 1 => 1, 2 => 0xff, 3 => 0xfe, 4 => 0x80, _ => self.below(256) } }
+    pub fn u16b(&mut self) -> u64 { match self.below(11) { 10 => self.tagish(2), 0 => 0, 1 => 1, 2 => 0xffff, 3 => 0xfffe, 4 => 0x00ff, 5 => 0xff00, 6 => 0x0100, _ => self.below(65536) } }
+    pub fn u32b(&mut self) -> u64 { match self.below(12) { 10 | 11 => self.tagish(4), 0 => 0, 1 => 1, 2 => 0xffff_ffff, 3 => 0x0000_ffff, 4 => 0xffff_0000, 5 => 0x0100_0000, 6 => 0x00ff_00ff, _ => self.next() & 0xffff_ffff } }
     // payload bytes: constant runs, index-coloured, uniform
     pub fn bytes(&mut self, n: usize) -> Vec<u8> {
         match self.below(7) {
